@@ -595,7 +595,7 @@ func c09(r *rep.Run) {
 		type tj struct {
 			name, src string
 			infix     bool
-			x         int64
+			x         interface{}
 			want      interface{}
 		}
 		var tjs []tj
@@ -609,8 +609,20 @@ func c09(r *rep.Run) {
 				tj{sprintf("in over a %d-element literal (member)", n), "(in x (" + lst + "))", false, int64(1000 + n - 1), true},
 				tj{sprintf("in over a %d-element literal (non-member)", n), "(not (in x (" + lst + ")))", false, int64(5), true})
 		}
+		// few nodes, many BYTES: one long string literal, one long identifier, one
+		// long comment in the body (lengths around 4 KiB, 64 KiB and 1 MiB)
+		for _, n := range []int{4095, 4097, 65535, 65536, 65537, 1 << 20} {
+			long := strings.Repeat("ab", n/2+1)[:n]
+			tjs = append(tjs,
+				tj{sprintf("comparison with a %d-byte string literal", n), "(= x \"" + long + "\")", false, long, true},
+				tj{sprintf("a %d-byte string literal in a list", n), "(in x (\"q\" \"" + long + "\"))", false, long, true},
+				tj{sprintf("a %d-byte comment inside the expression", n), "(= x ;" + long + "\n 7)", false, int64(7), true})
+			if n <= 65537 {
+				tjs = append(tjs, tj{sprintf("a %d-byte variable name", n), "(= v" + long + " 7)", false, int64(7), true})
+			}
+		}
 		for _, k := range []int{100, 20000, 33000, 60000} {
-			tjs = append(tjs, tj{sprintf("infix sum inside %d redundant parentheses", k), strings.Repeat("(", k) + "x + 1" + strings.Repeat(")", k) + " * 2", true, 20, int64(42)})
+			tjs = append(tjs, tj{sprintf("infix sum inside %d redundant parentheses", k), strings.Repeat("(", k) + "x + 1" + strings.Repeat(")", k) + " * 2", true, int64(20), int64(42)})
 		}
 		var tokRuns int64
 		r.ParallelFor(len(tjs), func(w, i int) {
@@ -621,7 +633,11 @@ func c09(r *rep.Run) {
 				o := drive.FromBits(b)
 				o.Infix = j.infix
 				d := map[string]interface{}{"family": j.name, "config": o.String(), "source_prefix": trunc(j.src, 80), "source_length": len(j.src)}
-				e, err := h.Compile(h.NewConfig([]term.VarDecl{{Name: "x", Ty: I}}, o), j.src, 0)
+				tvars := []term.VarDecl{{Name: "x", Ty: I}}
+				if strings.HasPrefix(j.src, "(= v") { // the long-identifier member: its variable is registered too
+					tvars = append(tvars, term.VarDecl{Name: strings.Fields(j.src)[1], Ty: I})
+				}
+				e, err := h.Compile(h.NewConfig(tvars, o), j.src, 0)
 				atomic.AddInt64(&cases, 1)
 				if pe, ok := err.(*drive.PanicErr); ok {
 					r.Violate("compile-panic", "tokens"+pe.Site, sprintf("%s: Compile panics under %s: %v (at %s)", j.name, o, pe.V, pe.Site), d)
